@@ -1,5 +1,5 @@
 import os, sys, time
-sys.path.insert(0, os.path.dirname(os.path.dirname(os.path.abspath(__file__))))
+
 from redun import Scheduler, task
 from redun.backends.db import CallNode
 redun_namespace = "p2"
